@@ -33,7 +33,7 @@ func init() {
 	vexplore.Register("C14", func(tier string) []*vexplore.Scenario {
 		d := 5
 		if tier == "thorough" {
-			d = 7
+			d = 6
 		}
 		return []*vexplore.Scenario{
 			{Name: fmt.Sprintf("dialer-backoff-hist-D%d", d), Mode: "hist", Reset: kit.ResetGlobals, Cfg: vsched.Config{RandFree: true}, Body: func() { hist(d, false) },
